@@ -253,3 +253,18 @@ Proof.
   - vm_compute. reflexivity.
   - exact Hw.
 Qed.
+
+Lemma t32cop_reified : { t : tree (res (option Z)) | forall w, eval no_env_res (Val None) t w = dec_thumb_coprocessor_advanced_simd_and_floating_point_instructions w }.
+Proof.
+  eexists. intros w. unfold dec_thumb_coprocessor_advanced_simd_and_floating_point_instructions. cbv zeta.
+  match goal with |- eval _ _ ?T w = ?rhs => let e := eval unfold no_env_res in no_env_res in let t := reify_t (res (option Z)) w e rhs in unify T t end.
+  reflexivity.
+Defined.
+Theorem dec_thumb32_cop_table w : 0 <= w < 2 ^ 32 ->
+  dec_thumb_coprocessor_advanced_simd_and_floating_point_instructions w = eval_leaf no_env_res (Val None) (lookup t32_cop_table (LRet (Val None)) w) w.
+Proof.
+  intros Hw. rewrite <- (proj2_sig t32cop_reified w).
+  apply (decode_correct 32%nat res_eqb res_eqb_sound no_env_res (Val None) t32_cop_table (LRet (Val None)) (proj1_sig t32cop_reified) 400).
+  - vm_compute. reflexivity.
+  - exact Hw.
+Qed.
